@@ -17,6 +17,7 @@ action for every result and report it truthfully.
 """
 import json
 import os
+import re
 
 import vlib
 import vtable
@@ -28,6 +29,7 @@ CONSTANTS
   MaxSig = %(maxsig)d
   Devs = {%(devs)s}
   Gen = %(gen)s
+  DocSubset = "%(docsubset)s"
 INVARIANTS %(inv)s
 %(emit)s
 CHECK_DEADLOCK FALSE
@@ -38,12 +40,13 @@ CONSTANTS
   MaxSig = 3
   Devs = {}
   Gen = FALSE
+  DocSubset = "%(docsubset)s"
   OpenDevs = {%(open)s}
 CHECK_DEADLOCK FALSE
 POSTCONDITION Post
 """
 
-ALL_DEVS = ["ErrDefaultsIgnore", "FailOpenBroken", "NoBodySubset"]
+ALL_DEVS = ["ErrDefaultsIgnore", "FailOpenBroken", "NoBodySubset", "ForgedArKept"]
 
 
 def q(names):
@@ -55,6 +58,25 @@ def ext_entries():
     if not os.path.exists(p):
         return []
     return [f for f in json.load(open(p)).get("findings", []) if f.get("ext") == PID]
+
+
+def doc_subset(repo):
+    """The allow_body_subset line of the check.dkim block printed in the documentation."""
+    p = os.path.join(repo, "docs", "reference", "checks", "dkim.md")
+    try:
+        txt = open(p).read()
+    except OSError as e:
+        raise vlib.Infra("cannot read %s: %s" % (p, e))
+    m = re.search(r"```\s*\ncheck\.dkim\s*\{(.*?)\}\s*\n```", txt, re.S)
+    if not m:
+        raise vlib.Infra("no check.dkim example block in %s" % p)
+    for line in m.group(1).splitlines():
+        f = line.split()
+        if f and f[0] == "allow_body_subset":
+            if len(f) != 2 or f[1] not in ("yes", "no"):
+                raise vlib.Infra("unexpected allow_body_subset line in %s: %r" % (p, line))
+            return f[1]
+    return "absent"
 
 
 def nontrivial(row):
@@ -76,6 +98,9 @@ def run(ctx, replay):
     open_by_dev = {e["match"]["deviation"]: e for e in entries
                    if e.get("status", "open") == "open" and "deviation" in e.get("match", {})}
 
+    docsubset = doc_subset(ctx.repo)
+    ctx.cov["documented_allow_body_subset"] = docsubset
+
     # ---- (T) + rows ---------------------------------------------------------
     if replay:
         obj = json.load(open(replay))
@@ -84,7 +109,7 @@ def run(ctx, replay):
     else:
         maxsig = 3 if thorough else 2
         r = ctx.tlc_expect_ok("InboundAuth", None, name="mc", workers=8, timeout=2400,
-                              cfg_text=MC_CFG % dict(maxsig=maxsig, devs="", gen="TRUE",
+                              cfg_text=MC_CFG % dict(maxsig=maxsig, devs="", gen="TRUE", docsubset=docsubset,
                                                      inv="RuleSatisfiesProp DkimPassIffGood SpfEarlyNeverBody",
                                                      emit="CONSTRAINT Emit"))
         rows = vtable.rows_from(r)
@@ -99,7 +124,7 @@ def run(ctx, replay):
         # each deviation on its own
         for dev in ALL_DEVS:
             ra = ctx.tlc("InboundAuth", None, name="asis-" + dev, workers=2, timeout=600,
-                         cfg_text=MC_CFG % dict(maxsig=1, devs=q([dev]), gen="FALSE",
+                         cfg_text=MC_CFG % dict(maxsig=1, devs=q([dev]), gen="FALSE", docsubset="no",
                                                 inv="AsIsSatisfiesProp", emit=""))
             if ra["invariant"] != "AsIsSatisfiesProp":
                 raise vlib.Infra("as-is model (%s) does not violate the property: predicates vacuous? (%s)" % (
@@ -177,7 +202,7 @@ def run(ctx, replay):
             selftest[t] = what
             events = events + [f]
 
-    verdicts, accepted = vtable.validate_rows(ctx, "InboundAuthTrace", TRACE_CFG % dict(open=q(open_by_dev)),
+    verdicts, accepted = vtable.validate_rows(ctx, "InboundAuthTrace", TRACE_CFG % dict(open=q(open_by_dev), docsubset=docsubset),
                                               events, batch=4000, par=8, timeout=1800)
     ctx.log("TLC evaluated %d recorded rows: %d accepted as conforming" % (len(events), accepted))
     for t, what in selftest.items():
